@@ -550,7 +550,7 @@ def bounded(S):
         if case % 3 == 2:
             mesh = Mesh.create_higher_order_mesh_from_simplex_mesh(mesh, 2, copyNodeSets=True)
         nN = mesh.coords.shape[0]
-        sets = {'all': onp.arange(nN), 'none': onp.array([], dtype=int)}
+        sets = {'all': onp.arange(nN), 'none': onp.array([], dtype=int), 'pin_first_node': onp.array([0]), 'pin_last_node': onp.array([nN - 1])}
         for k in range(3):
             sets['r%d' % k] = onp.sort(rng.choice(nN, size=int(rng.integers(1, nN + 1)), replace=False))
         mesh = Mesh.mesh_with_nodesets(mesh, {**(mesh.nodeSets or {}), **sets})
@@ -559,6 +559,8 @@ def bounded(S):
         nb = int(rng.integers(0, 6))
         if case % 8 == 0:
             ebcs = [FS.EssentialBC(nodeSet='all', component=c) for c in range(dim)]
+        elif case % 8 == 1:
+            ebcs = [FS.EssentialBC(nodeSet='pin_first_node', component=c) for c in range(dim)] + [FS.EssentialBC(nodeSet='pin_last_node', component=0)]
         else:
             ebcs = [FS.EssentialBC(nodeSet=str(rng.choice(names)), component=int(rng.integers(0, dim))) for _ in range(nb)]
         ebcs = [e for e in ebcs if e.nodeSet in mesh.nodeSets]
